@@ -4,6 +4,7 @@
 use super::*;
 use crate::counter_marker::verif_proofs as cmp;
 use crate::lists::verif_proofs as lp;
+use crate::lists::{LinkedList, LinkedQueue};
 use crate::state::verif_proofs as sp;
 use crate::verif::ghost::{self, g};
 use crate::verif::probes::*;
@@ -667,4 +668,230 @@ pub(crate) mod md {
     pub(crate) fn record_vtable_data_addr(m: M) -> usize {
         unsafe { m.as_ref() }.vtable.fat_ptr.as_ptr() as *const u8 as usize
     }
+}
+
+// ------------------------------------------------------------------------------------------------
+// CcBox::trace — the transition table of both tracing phases (DESIGN 4 cc.rs).
+// One harness per (phase, mark of the traced object) = control enumerated by hand; the two header
+// words, the position of the object in its list and the neighbour contents are symbolic.
+// Preconditions are the collector's own (debug-asserted) invariant: tracing counter < counter when
+// the object is already owned by the collector (each Cc is traced at most once: Trace contract).
+// ------------------------------------------------------------------------------------------------
+pub(crate) struct TraceEnv {
+    pub root: LinkedList,
+    pub non_root: LinkedList,
+    pub queue: LinkedQueue,
+}
+fn lseq(l: &LinkedList) -> lp::Seq {
+    lp::seq(lp::ll_first(l))
+}
+fn qseq(q: &LinkedQueue) -> lp::Seq {
+    lp::qseq(lp::q_first(q))
+}
+fn seq_eq(a: &lp::Seq, b: &[Option<P>], n: usize) -> bool {
+    let mut ok = a.wf && a.len == n;
+    let mut i = 0;
+    while i < n {
+        if a.e[i] != b[i] {
+            ok = false;
+        }
+        i += 1;
+    }
+    ok
+}
+fn trace_counting(x: P, env: &mut TraceEnv) {
+    let mut ctx = Context::new(ContextInner::Counting { root_list: &mut env.root, non_root_list: &mut env.non_root, queue: &mut env.queue });
+    CcBox::trace(x, &mut ctx);
+}
+fn trace_roots(x: P, env: &mut TraceEnv) {
+    let mut ctx = Context::new(ContextInner::RootTracing { non_root_list: &mut env.non_root, queue: &mut env.queue });
+    CcBox::trace(x, &mut ctx);
+}
+/// symbolic words for the traced object with the given mark; tracing < counter <= MAX
+fn havoc_traced(x: P, mark: u16) -> (u16, u16) {
+    let t: u16 = kani::any();
+    let c: u16 = kani::any();
+    kani::assume(t >> 14 == mark);
+    kani::assume((c & 0x3fff) <= 16382 && (t & 0x3fff) < (c & 0x3fff));
+    set_words_of(x, t, c);
+    (t, c)
+}
+fn forget_env(env: TraceEnv) {
+    core::mem::forget(env.root);
+    core::mem::forget(env.non_root);
+    core::mem::forget(env.queue);
+}
+
+/// Counting phase, object already in root_list (mark InList): exactly tracing+1; moves root -> non-root
+/// exactly when the counters meet; the reference counter is never written.
+//@ C01 C02 | complete | deciding | feat=full,std | fn=CcBox::trace | timeout=600
+#[kani::proof]
+#[kani::unwind(9)]
+pub(crate) fn ccbox_trace_counting_in_list() {
+    let (x, y, z, w) = (lp::new_leaf_box(0), lp::new_leaf_box(1), lp::new_leaf_box(2), lp::new_leaf_box(3));
+    let (t0, c0) = havoc_traced(x, 2);
+    let wy = lp::havoc_words(y);
+    let wz = lp::havoc_words(z);
+    let ww = lp::havoc_words(w);
+    // root_list = [x], [x,y] or [y,x]; non_root_list = [] or [z]; queue = [] or [w]
+    let shape: u8 = kani::any();
+    kani::assume(shape < 3);
+    let root_first = match shape { 0 => lp::chain(&[x], 1), 1 => lp::chain(&[x, y], 2), _ => lp::chain(&[y, x], 2) };
+    let has_z: bool = kani::any();
+    let has_w: bool = kani::any();
+    let mut env = TraceEnv {
+        root: lp::ll_from(root_first),
+        non_root: lp::ll_from(if has_z { Some(z) } else { None }),
+        queue: if has_w { lp::q_from(Some(w), Some(w)) } else { lp::q_from(None, None) },
+    };
+    trace_counting(x, &mut env);
+    let (t1, c1) = words_of(x);
+    kani::assert(c1 == c0, "CcBox::trace::counting::frame::reference_counter_never_written");
+    kani::assert(t1 == t0 + 1, "CcBox::trace::counting::post::tracing_counter_plus_one_mark_kept");
+    let meet = (t0 & 0x3fff) + 1 == (c0 & 0x3fff);
+    let r = lseq(&env.root);
+    let nr = lseq(&env.non_root);
+    if meet {
+        let exp_root = [if shape == 0 { None } else { Some(y) }];
+        kani::assert(seq_eq(&r, &exp_root, if shape == 0 { 0 } else { 1 }), "CcBox::trace::counting::post::leaves_root_list_when_counters_meet");
+        kani::assert(seq_eq(&nr, &[Some(x), Some(z)], if has_z { 2 } else { 1 }), "CcBox::trace::counting::post::enters_non_root_list_when_counters_meet");
+    } else {
+        let exp: [Option<P>; 2] = match shape { 0 => [Some(x), None], 1 => [Some(x), Some(y)], _ => [Some(y), Some(x)] };
+        kani::assert(seq_eq(&r, &exp, if shape == 0 { 1 } else { 2 }), "CcBox::trace::counting::post::stays_root_while_counters_differ");
+        kani::assert(seq_eq(&nr, &[Some(z)], if has_z { 1 } else { 0 }), "CcBox::trace::counting::frame::non_root_list");
+        kani::assert(!lp::contains(&nr, x), "CcBox::trace::counting::post::non_root_only_when_counters_meet");
+    }
+    kani::assert(seq_eq(&qseq(&env.queue), &[Some(w)], if has_w { 1 } else { 0 }), "CcBox::trace::counting::frame::queue");
+    kani::assert(words_of(y) == wy && words_of(z) == wz && words_of(w) == ww, "CcBox::trace::counting::frame::other_objects");
+    kani::assert(pc_view().1 == 0, "CcBox::trace::counting::frame::buffer");
+    forget_env(env);
+}
+
+/// Counting phase, object marked InQueue (queued, or the one currently being traced: a self-loop):
+/// tracing+1 only, no list is touched even when the counters meet.
+//@ C01 C02 | complete | deciding | feat=full,std | fn=CcBox::trace | timeout=600
+#[kani::proof]
+#[kani::unwind(9)]
+pub(crate) fn ccbox_trace_counting_in_queue() {
+    let (x, y, z, w) = (lp::new_leaf_box(0), lp::new_leaf_box(1), lp::new_leaf_box(2), lp::new_leaf_box(3));
+    let (t0, c0) = havoc_traced(x, 3);
+    let wy = lp::havoc_words(y);
+    let wz = lp::havoc_words(z);
+    let ww = lp::havoc_words(w);
+    // x is in the queue ([x], [x,w], [w,x]) or unlinked (currently being traced)
+    let shape: u8 = kani::any();
+    kani::assume(shape < 4);
+    let (qf, ql, qn): (Option<P>, Option<P>, usize) = match shape {
+        0 => (None, None, 0),
+        1 => { set_links(x, None, None); (Some(x), Some(x), 1) }
+        2 => { set_links(x, Some(w), None); (Some(x), Some(w), 2) }
+        _ => { set_links(w, Some(x), None); (Some(w), Some(x), 2) }
+    };
+    let mut env = TraceEnv { root: lp::ll_from(Some(y)), non_root: lp::ll_from(Some(z)), queue: lp::q_from(qf, ql) };
+    let q0 = qseq(&env.queue);
+    trace_counting(x, &mut env);
+    kani::assert(words_of(x) == (t0 + 1, c0), "CcBox::trace::counting::queued::post::tracing_counter_plus_one_only");
+    kani::assert(seq_eq(&lseq(&env.root), &[Some(y)], 1) && seq_eq(&lseq(&env.non_root), &[Some(z)], 1), "CcBox::trace::counting::queued::frame::lists");
+    let q1 = qseq(&env.queue);
+    kani::assert(q1.len == q0.len && q1.e[0] == q0.e[0] && q1.e[1] == q0.e[1] && q1.len == qn, "CcBox::trace::counting::queued::frame::queue");
+    kani::assert(words_of(y) == wy && words_of(z) == wz && words_of(w) == ww, "CcBox::trace::counting::queued::frame::other_objects");
+    forget_env(env);
+}
+
+/// Counting phase, object still buffered (mark PossibleCycles): tracing+1, stays where it is.
+//@ C01 C02 | complete | deciding | feat=full,std | fn=CcBox::trace | timeout=600
+#[kani::proof]
+#[kani::unwind(9)]
+pub(crate) fn ccbox_trace_counting_buffered() {
+    let (x, y, z, w) = (lp::new_leaf_box(0), lp::new_leaf_box(1), lp::new_leaf_box(2), lp::new_leaf_box(3));
+    let (arr, n) = build_pc(x, [y, z], true);
+    let (t0, c0) = havoc_traced(x, 1);
+    let (wy, wz) = (words_of(y), words_of(z));
+    let ww = lp::havoc_words(w);
+    let mut env = TraceEnv { root: lp::ll_from(None), non_root: lp::ll_from(None), queue: lp::q_from(Some(w), Some(w)) };
+    trace_counting(x, &mut env);
+    kani::assert(words_of(x) == (t0 + 1, c0), "CcBox::trace::counting::buffered::post::tracing_counter_plus_one_only");
+    { let (a, b) = pc_is(&arr, n, None); kani::assert(a && b, "CcBox::trace::counting::buffered::frame::buffer"); }
+    kani::assert(lseq(&env.root).len == 0 && lseq(&env.non_root).len == 0 && seq_eq(&qseq(&env.queue), &[Some(w)], 1), "CcBox::trace::counting::buffered::frame::lists");
+    kani::assert(words_of(y) == wy && words_of(z) == wz && words_of(w) == ww, "CcBox::trace::counting::buffered::frame::other_objects");
+    forget_env(env);
+}
+
+/// Counting phase, object not yet seen by this collection (NonMarked, STALE tracing counter of any
+/// value): the stale value is discarded (reset, then 1), the object is queued exactly once.
+//@ C01 C02 | complete | deciding | feat=full,std | fn=CcBox::trace | timeout=600
+#[kani::proof]
+#[kani::unwind(9)]
+pub(crate) fn ccbox_trace_counting_non_marked() {
+    let (x, y, z, w) = (lp::new_leaf_box(0), lp::new_leaf_box(1), lp::new_leaf_box(2), lp::new_leaf_box(3));
+    let t0: u16 = kani::any();
+    let c0: u16 = kani::any();
+    kani::assume(t0 >> 14 == 0 && (t0 & 0x3fff) != 0x3fff && (c0 & 0x3fff) >= 1 && (c0 & 0x3fff) <= 16382);
+    set_words_of(x, t0, c0);
+    let wy = lp::havoc_words(y);
+    let wz = lp::havoc_words(z);
+    let ww = lp::havoc_words(w);
+    let has_w: bool = kani::any();
+    let mut env = TraceEnv { root: lp::ll_from(Some(y)), non_root: lp::ll_from(Some(z)), queue: if has_w { lp::q_from(Some(w), Some(w)) } else { lp::q_from(None, None) } };
+    trace_counting(x, &mut env);
+    kani::assert(words_of(x) == (0xc000 | 1, c0), "CcBox::trace::counting::fresh::post::stale_tracing_counter_discarded_then_one_and_queued_mark");
+    let q = qseq(&env.queue);
+    if has_w {
+        kani::assert(seq_eq(&q, &[Some(w), Some(x)], 2) && lp::q_last(&env.queue) == Some(x), "CcBox::trace::counting::fresh::post::appended_to_queue");
+    } else {
+        kani::assert(seq_eq(&q, &[Some(x)], 1) && lp::q_last(&env.queue) == Some(x), "CcBox::trace::counting::fresh::post::appended_to_queue");
+    }
+    kani::assert(seq_eq(&lseq(&env.root), &[Some(y)], 1) && seq_eq(&lseq(&env.non_root), &[Some(z)], 1), "CcBox::trace::counting::fresh::frame::lists");
+    kani::assert(words_of(y) == wy && words_of(z) == wz && (words_of(w) == ww), "CcBox::trace::counting::fresh::frame::other_objects");
+    kani::assert(pc_view().1 == 0, "CcBox::trace::counting::fresh::frame::buffer");
+    forget_env(env);
+}
+
+/// Root-tracing phase: an object is pulled out of non_root_list (and queued for root tracing) exactly
+/// when it is InList with equal counters; in every other state nothing at all is written.
+//@ C01 C06 | complete | deciding | feat=full,std | fn=CcBox::trace | timeout=600
+#[kani::proof]
+#[kani::unwind(9)]
+pub(crate) fn ccbox_trace_roots_table() {
+    let (x, y, z, w) = (lp::new_leaf_box(0), lp::new_leaf_box(1), lp::new_leaf_box(2), lp::new_leaf_box(3));
+    let t0: u16 = kani::any();
+    let c0: u16 = kani::any();
+    kani::assume((t0 & 0x3fff) != 0x3fff && (c0 & 0x3fff) <= 16382 && (t0 & 0x3fff) <= (c0 & 0x3fff));
+    set_words_of(x, t0, c0);
+    let wy = lp::havoc_words(y);
+    let wz = lp::havoc_words(z);
+    let ww = lp::havoc_words(w);
+    let garbage = (t0 >> 14 == 2) && (t0 & 0x3fff) == (c0 & 0x3fff);
+    // non_root_list: x at a symbolic position when it is a non-root candidate, else [y,z]
+    let shape: u8 = kani::any();
+    kani::assume(shape < 3);
+    let nr_first = if garbage {
+        match shape { 0 => lp::chain(&[x], 1), 1 => lp::chain(&[x, y], 2), _ => lp::chain(&[y, x, z], 3) }
+    } else {
+        lp::chain(&[y, z], 2)
+    };
+    let links0 = (next_of(x), prev_of(x));
+    let has_w: bool = kani::any();
+    let mut env = TraceEnv { root: lp::ll_from(None), non_root: lp::ll_from(nr_first), queue: if has_w { lp::q_from(Some(w), Some(w)) } else { lp::q_from(None, None) } };
+    trace_roots(x, &mut env);
+    let nr = lseq(&env.non_root);
+    let q = qseq(&env.queue);
+    if garbage {
+        kani::assert(words_of(x) == ((t0 & 0x3fff) | 0xc000, c0), "CcBox::trace::roots::post::reached_object_marked_queued_counters_kept");
+        kani::assert(!lp::contains(&nr, x) && nr.wf, "CcBox::trace::roots::post::reached_object_leaves_non_root_list");
+        let exp: [Option<P>; 2] = match shape { 0 => [None, None], 1 => [Some(y), None], _ => [Some(y), Some(z)] };
+        kani::assert(seq_eq(&nr, &exp, shape as usize), "CcBox::trace::roots::post::non_root_list_is_old_list_without_it");
+        if has_w {
+            kani::assert(seq_eq(&q, &[Some(w), Some(x)], 2), "CcBox::trace::roots::post::queued_for_root_tracing");
+        } else {
+            kani::assert(seq_eq(&q, &[Some(x)], 1), "CcBox::trace::roots::post::queued_for_root_tracing");
+        }
+    } else {
+        kani::assert(words_of(x) == (t0, c0) && (next_of(x), prev_of(x)) == links0, "CcBox::trace::roots::post::other_states_untouched");
+        kani::assert(seq_eq(&nr, &[Some(y), Some(z)], 2), "CcBox::trace::roots::frame::non_root_list");
+        kani::assert(seq_eq(&q, &[Some(w)], if has_w { 1 } else { 0 }), "CcBox::trace::roots::frame::queue");
+    }
+    kani::assert((words_of(y).1 == wy.1) && (words_of(z).1 == wz.1) && words_of(w) == ww, "CcBox::trace::roots::frame::other_objects");
+    kani::assert(words_of(y).0 == wy.0 && words_of(z).0 == wz.0, "CcBox::trace::roots::frame::other_objects");
+    forget_env(env);
 }
